@@ -286,12 +286,12 @@ Section Proto.
     | _, _ => op_close a ;;; op_close b ;;; ret false
     end.
 
-  (** backup_create_md5_file *)
-  Definition create_md5 : M unit :=
-    ok <- op_probe KFopenR RIn ;;
+  (** backup_create_md5_file(filename, content_filename): digest of the NEW content, read from [src] *)
+  Definition create_md5 (src : role) : M unit :=
+    ok <- op_probe KFopenR src ;;
     if negb ok then exit_ EX_SOFTWARE else
-    c <- op_read KFread RIn ;;
-    op_simple KFclose RIn ;;;
+    c <- op_read KFread src ;;
+    op_simple KFclose src ;;;
     okw <- op_fopen_w RMd5 ;;
     if negb okw then ret tt else
     op_write RMd5 (Digest (match c with Some x => bytes_of x | None => [] end)) ;;;
@@ -314,12 +314,13 @@ Section Proto.
       if negb okc then
         ((if in_place md then op_unlink tmp else ret true) ;;; exit_ EX_IOERR)
       else
+        (* the md5 of the new content is recorded BEFORE the rename (fix 73d74d0) *)
+        (if in_place md && negb (no_backup md) then create_md5 tmp else ret tt) ;;;
         (if in_place md then
            same <- (if if_changed md then ret false else content_matches tmp target) ;;
            if same then (op_unlink tmp ;;; ret tt)
            else (okr <- op_rename tmp target ;; if okr then ret tt else exit_ EX_IOERR)
          else ret tt) ;;;
-        (if in_place md && negb (no_backup md) then create_md5 else ret tt) ;;;
         (if keep_mtime md then (op_simple KUtime RIn ;;; ret tt) else ret tt) ;;;
         ret {| stdout := []; check_fail := false |}
     end.
